@@ -74,6 +74,24 @@ C17Fails(ev, T0, V, T1, W) ==
              THEN Fail("UndoRestoresExactly", T1 = T0)
              ELSE F_NNIApply(V, W))
 
+\* full enumeration of the NNI neighbourhood: res.nb[i] = projection after applying rearrangement i (undone afterwards)
+C17AllFails(ev, V, T0, T1) ==
+  IF ev.op # "NNIAll" THEN {}
+  ELSE LET nb == ev.res.nb
+           ok(i) == WellFormed(nb[i])
+           S(i) == NTSplits(View(nb[i]))
+       IN  F_NNICount(V, Len(nb))
+           \cup Fail("NeighboursAreTrees", \A i \in 1..Len(nb) : ok(i))
+           \cup (IF \A i \in 1..Len(nb) : ok(i)
+                 THEN LET SS == TLCEval([i \in 1..Len(nb) |-> S(i)])
+                      IN  Fail("NeighboursPairwiseDistinct", \A i, j \in 1..Len(nb) : i # j => SS[i] # SS[j])
+                          \cup Fail("NeighbourDiffersByOneSplit",
+                                    \A i \in 1..Len(nb) : /\ Cardinality(NTSplits(V) \ SS[i]) = 1
+                                                           /\ Cardinality(SS[i] \ NTSplits(V)) = 1
+                                                           /\ View(nb[i]).names = V.names)
+                 ELSE {})
+           \cup Fail("UnchangedAfterFullEnumeration", T1 = T0)
+
 C04Fails(ev, T, W) ==
   IF ev.op \in {"ReinitIndexes", "Init"} /\ "idx" \in DOMAIN T
   THEN F_IndexFresh(T, W, T.idx, T.rank)
@@ -93,8 +111,12 @@ StepFails(ev, T0, T1) ==
                   C05 |-> IF On("C05") THEN C05Fails(ev, V, W) ELSE {},
                   C06 |-> IF On("C06") THEN C06TraceFails(ev, V, W) ELSE {},
                   C07 |-> IF On("C07") THEN C07Fails(ev, V, W) ELSE {},
-                  C15 |-> IF On("C15") THEN C15Fails(ev, V, W) ELSE {},
-                  C17 |-> IF On("C17") THEN C17Fails(ev, T0, V, T1, W) ELSE {}]>>
+                  C15 |-> IF On("C15")
+                          THEN C15Fails(ev, V, W)
+                               \* an in-place edit of the copy (comments) must leave the history's own object identical
+                               \cup (IF ev.op = "TwinCommentEdit" THEN Fail("SourceUnchangedByCopyEdit", T1 = T0) ELSE {})
+                          ELSE {},
+                  C17 |-> IF On("C17") THEN C17Fails(ev, T0, V, T1, W) \cup C17AllFails(ev, V, T0, T1) ELSE {}]>>
 
 PropIds == {"C03", "C04", "C05", "C06", "C07", "C15", "C17"}
 
@@ -122,7 +144,7 @@ CrashProp(ev) ==
     [] ev.op = "RemoveTips" -> "C06"
     [] ev.op \in {"CollapseShortBranches", "CollapseLowSupport", "CollapseTopoDepth", "Resolve"} -> "C07"
     [] ev.op \in {"Clone", "SubTree", "GraftTreeOnTip", "Merge", "InsertIdenticalTips", "RemoveSingleNodes"} -> "C15"
-    [] ev.op = "NNI" -> "C17"
+    [] ev.op \in {"NNI", "NNIAll"} -> "C17"
     [] OTHER -> "C03"
 
 -----------------------------------------------------------------------------
@@ -166,9 +188,14 @@ TraceOp ==
               cls == RootClass(View(T0))
           IN  /\ cur' = [a |-> T1, b |-> IF Ev.obj2 = "b" THEN Ev.post2 ELSE IF Ev.obj2 = "g" THEN NoTree ELSE cur.b]
               /\ IF r[1] = "C03"
-                 THEN /\ (IF On("C03") THEN Report("C03", Ev, cls, r[2]) ELSE TRUE)
-                      /\ nfail' = nfail + (IF On("C03") THEN Cardinality(r[2]) ELSE 0)
-                      /\ alive' = FALSE
+                 THEN \* the result is not a tree: C03, and also the property that states what this operation returns
+                      \* (its statement presupposes a tree: "the tree induced on ...", "differs by exactly one split", ...)
+                      LET p2 == CrashProp(Ev)
+                          own == p2 # "C03" /\ On(p2)
+                      IN  /\ (IF On("C03") THEN Report("C03", Ev, cls, r[2]) ELSE TRUE)
+                          /\ (IF own THEN Report(p2, Ev, cls, {"ResultIsATree"}) ELSE TRUE)
+                          /\ nfail' = nfail + (IF On("C03") THEN Cardinality(r[2]) ELSE 0) + (IF own THEN 1 ELSE 0)
+                          /\ alive' = FALSE
                  ELSE IF r[1] = ""
                  THEN nfail' = nfail /\ alive' = FALSE    \* left the domain (e.g. fewer than 2 tips): not judged further
                  ELSE /\ (CONFORM /\ ~Conforms(Ev, View(T0), View(T1)) => Note("DRIFT", Ev, cls))
